@@ -143,6 +143,19 @@ CHECKS.update({
     ),
 })
 
+CHECKS.update({
+    "C04": dict(
+        text="Lean theorem decodes: the permitted encodings of a message are specified as a relation MsgL m bs written from RFC 4511's ASN.1 "
+             "(every TLV node: any definite length form incl. padded long forms such as Active Directory's 4-octet lengths; TRUE as any non-zero "
+             "octet; explicitly encoded DEFAULT FALSE; unrecognised trailing elements after the defined components; either form of the protocolOp "
+             "identifier); for EVERY such encoding, any trailing bytes and any sufficient recursion budget the decoder returns exactly that message "
+             "and consumes exactly the encoding; the library's own encoding is one of them, so a peer's encoding decodes to the same value as the "
+             "library's own. An independent Python encoder generates such alternative encodings for the implementation and the model.",
+        technique="Lean 4 proof (induction over the relational encoder; reader lemmas for arbitrary length forms) + correspondence",
+        ref="DESIGN.md §4 C04",
+    ),
+})
+
 NOT_YET = {
 }
 
